@@ -28,11 +28,11 @@ def sh(cmd, **kw):
     return subprocess.run(cmd, capture_output=True, text=True, **kw)
 
 
-def scratch_tree(tag):
+def scratch_tree(tag, commit='HEAD'):
     d = os.path.join(SCRATCH, 'verif-seed-%s' % tag)
     sh(['git', '-C', '/repo', 'worktree', 'remove', '--force', d])
     shutil.rmtree(d, ignore_errors=True)
-    r = sh(['git', '-C', '/repo', 'worktree', 'add', '--detach', d, 'HEAD'])
+    r = sh(['git', '-C', '/repo', 'worktree', 'add', '--detach', d, commit])
     if r.returncode:
         raise RuntimeError(r.stderr)
     return d
@@ -70,11 +70,19 @@ def vet(src, checks, keep=None, baseline=True, tier='quick', runs=None, seed=Non
     meta = json.load(open(os.path.join(src, 'meta.json')))
     prop = meta['property']
     tag = (keep or meta.get('id') or os.path.basename(src.rstrip('/'))).replace('/', '_')
-    tree = scratch_tree(tag)
+    # a change made obsolete by a later fix: commit (its mechanism no longer exists on HEAD) is replayed on the commit it was written for
+    base = meta.get('replay_on_commit') or 'HEAD'
+    tree = scratch_tree(tag, base)
+    clean = '/repo'
+    if base != 'HEAD':
+        clean = scratch_tree(tag + '-clean', base)
+        print('replaying on base commit %s (obsolete on HEAD: %s)' % (base, meta.get('obsolete_reason', '')))
     rep = {'id': tag, 'property': prop, 'steps': {}}
     ok = True
     try:
         r = sh(['git', '-C', tree, 'apply', os.path.join(src, 'patch.diff')])
+        if r.returncode:
+            r = sh(['git', '-C', tree, 'apply', '--3way', os.path.join(src, 'patch.diff')])
         rep['steps']['apply'] = r.returncode
         if r.returncode:
             print('patch does not apply: ' + r.stderr[:400])
@@ -88,7 +96,7 @@ def vet(src, checks, keep=None, baseline=True, tier='quick', runs=None, seed=Non
             ok &= b.returncode == 0
             print('baseline on mutant tree: %s (exit %d)' % (rep['steps']['baseline'], b.returncode))
         d1 = sh([PY, os.path.join(src, 'demo.py'), tree], timeout=900, cwd=src)
-        d0 = sh([PY, os.path.join(src, 'demo.py'), '/repo'], timeout=900, cwd=src)
+        d0 = sh([PY, os.path.join(src, 'demo.py'), clean], timeout=900, cwd=src)
         rep['steps']['demo_mutant_exit'] = d1.returncode
         rep['steps']['demo_clean_exit'] = d0.returncode
         print('demo.py: mutant tree exit %d, clean /repo exit %d' % (d1.returncode, d0.returncode))
@@ -120,6 +128,8 @@ def vet(src, checks, keep=None, baseline=True, tier='quick', runs=None, seed=Non
             print('kept as seeded/%s' % keep)
     finally:
         drop_tree(tree)
+        if clean != '/repo':
+            drop_tree(clean)
     return rep, ok
 
 
